@@ -8,7 +8,7 @@
 EXTENDS Workbook, Json
 CONSTANTS Kind, Thorough
 VARIABLE st
-Kinds == <<"int", "float", "bool", "one", "text", "datetime", "negint", "zero", "array", "date", "boolf", "bigint">>
+Kinds == <<"int", "float", "bool", "one", "text", "datetime", "negint", "zero", "array", "date", "boolf", "bigint", "eqtext">>
 Corner == {<<c, r>> : c \in 1..3, r \in 1..3}
 Beacons == {<<4, 7>>, <<27, 1>>, <<1, 100>>, <<16384, 3>>}
 \* cells of a sheet from a set of coordinates; the kind depends on the position and a rotation
